@@ -683,11 +683,15 @@ def check(run):
                 fn_own = "bundlefile"
             unv = direct.get((fn_own, ac_own, io_own, None))
             known_cls = None
-            if e.startswith("taxii.") and e.endswith(".all_versions") and unv is not None and (
-                    (unv[0] == "exc" and outcomes_equal(out, unv)) or (unv[0] == "ok" and out[0] == "ok")):
-                # the unversioned first parse (inside self.query) raised, or it succeeded and what is parsed with the
-                # version afterwards is its result, not the content
-                known_cls = FINDING_TAXII_ALL_VERSIONS
+            if e.startswith("taxii.") and e.endswith(".all_versions") and v is not None:
+                # Run-time variant: the generated table says this entry point ALSO reaches the parser without the version
+                # (self.query(..) called without version=).  Then whatever it does differently from a direct parse is that
+                # defect: the unversioned first parse raised, or succeeded and its RESULT is what gets parsed with the version.
+                ekey = (e, json.dumps({k: x for k, x in cfg.items() if k != "wrap"}, sort_keys=True))
+                tr = eff.get(ekey) or []
+                if any(t[3] == ("v", None) for t in tr) or (not tr and unv is not None and (
+                        (unv[0] == "exc" and outcomes_equal(out, unv)) or (unv[0] == "ok" and out[0] == "ok"))):
+                    known_cls = FINDING_TAXII_ALL_VERSIONS
             if e in TAXII_SINK_ENTRIES and cfg.get("wrap") in (None, "list"):
                 known_cls = FINDING_TAXII_SINK_DICT           # a plain dict goes into v2x.Bundle(..) and never meets parse(.., version)
             # oracle: the property itself (a version is named)
@@ -716,8 +720,11 @@ def check(run):
                 triples = eff.get(key)
                 if triples is None:
                     continue
-                if out[0] == "ok" and len({(t[0], t[1][1], t[2][1], t[3][1]) for t in triples}) > 1:
-                    continue        # several parses in a row (TAXII all_versions): their composition is not a single direct parse
+                if len({(t[0], t[1][1], t[2][1], t[3][1]) for t in triples}) > 1:
+                    # several parses in a row (TAXII all_versions before its repair): the second one is applied to the RESULT
+                    # of the first, which no single direct parse of the content predicts
+                    run.coverage["dispatch_composition_skipped"] = run.coverage.get("dispatch_composition_skipped", 0) + 1
+                    continue
                 ok_any, unknown = False, False
                 for fn, ac, io_, vv in triples:
                     f = "parse_observable" if fn == "parsing.parse_observable" else "parse"
